@@ -23,7 +23,14 @@ def src(idm):
 def features(d):
     import re
     try:
-        m = re.search(r'--features[ =]("[^"]+"|[A-Za-z0-9_,/-]+)', open(d + '/demo/RUN.md').read())
+        # the LONGEST feature list named anywhere in RUN.md (a prose mention of one feature may come first)
+        ms = re.findall(r'--features[ =]("[^"]+"|[A-Za-z0-9_,/-]+)', open(d + '/demo/RUN.md').read())
+        m = None
+        if ms:
+            class _M:
+                def __init__(self, g): self._g = g
+                def group(self, i): return self._g
+            m = _M(max(ms, key=len))
         return ' --features ' + m.group(1) if m else ''
     except Exception:
         return ''
@@ -61,7 +68,8 @@ def confirm(ID, m):
     # remove the demos before the pinned suite (they are not part of the change)
     for rel, crate, name in tests:
         os.remove(wt + '/' + rel)
-    rc, o = sh('/tmp/mut/baseline.sh %s' % wt, timeout=7200)
+    base = '/tmp/mut/baseline.sh' if os.path.exists('/tmp/mut/baseline.sh') else os.path.join(os.path.dirname(os.path.abspath(__file__)), 'baseline-wt.sh')
+    rc, o = sh('sh %s %s' % (base, wt), timeout=7200)
     res['baseline'] = o.strip().splitlines()[-1] if o.strip() else ''
     res['baseline_ok'] = 'missing: []' in o
     sh('git checkout -- . && git clean -fdq -e Cargo.lock -e target', wt)
